@@ -331,6 +331,16 @@ class ImplError:
         return "ImplError(%s: %s)" % (self.cls, self.msg)
 
 
+def run_cli_main(module, argv):
+    """run a batchie CLI module's main() in-process with the given argv, without its logging setup"""
+    from unittest import mock
+
+    import batchie.log_config as lc
+
+    with mock.patch.object(sys, "argv", list(argv)), mock.patch.object(lc, "configure_logging", lambda *a, **k: None):
+        return module.main()
+
+
 def canon(x):
     """canonical JSON-able form of implementation values: numpy -> python, tuples -> lists"""
     import numpy as np
